@@ -9,11 +9,11 @@ payload), and the exchange-rate oracle (a rate table, `rates`).  Amounts are nat
 numbers; the 256-bit / 315-bit range checks of `sdkmath.Int` / `LegacyDec` are not modelled
 (the correspondence universe keeps every amount below 2^100, where they cannot trigger).
 
-Every handler follows the Go code as it is, including the two ledger defects F-svc-1
+Every handler follows the Go code as it is, including the ledger defect F-svc-1
 (`FilterServiceProviders` sums the undiscounted price, `buildRequest` records the
-discounted one) and F-svc-2 (`SetOwnerEarnedFees` never deletes a denom that dropped to 0)
-and the queue leak F-svc-3 (new-batch entry kept when no exchange rate is available).
-A rejected message leaves the state unchanged.
+discounted one; pinned by the repository's own test suite, hence not repaired).  The former
+defects F-svc-2..5 are repaired in /repo (commits 5529ca8, f0f40e8, 3670fd1, 1a7f3af) and the
+model follows the repaired code.  A rejected message leaves the state unchanged.
 -/
 import Irismod.Sdk.Map
 import Irismod.Sdk.Dec18
@@ -648,6 +648,7 @@ def keeperStart (s : State) (id : CtxId) (consumer : Addr) : R :=
     | .error e => .error e
     | .ok _ =>
       if rc.state ≠ .paused then rej "not paused" else
+      if rc.repeated ∧ 0 ≤ rc.total ∧ rc.total ≤ (rc.batchCounter : Int) then rej "repeated total reached" else
       let s1 := setCtx s id { rc with state := .running }
       .ok (if !(AMap.contains s.expH id) ∧ !(AMap.contains s.newH id) then addNew s1 id s.height else s1)
 
@@ -849,10 +850,12 @@ def setEntries (m : AMap (Addr × Denom) Nat) (a : Addr) (c : Coins) : AMap (Add
 /-- keeper `WithdrawEarnedFees` -/
 def wdAddrOf (s : State) (owner : Addr) : Addr := AMap.getD s.wd owner owner
 
-/-- the owner-side tally after a per-provider withdrawal: `none` = `Coins.Sub` panics -/
+/-- the owner-side tally after a per-provider withdrawal (`SetOwnerEarnedFees` first deletes the owner's
+entries, then writes the remaining denoms): `none` = `Coins.Sub` panics -/
 def ownerTallyAfter (s : State) (owner p : Addr) : Option (AMap (Addr × Denom) Nat) :=
   if coinsEq (entriesOf s.earned p) (entriesOf s.oearned owner) then some (eraseAll s.oearned owner)
-  else (coinsSub (entriesOf s.oearned owner) (entriesOf s.earned p)).map (fun diff => setEntries s.oearned owner diff)
+  else (coinsSub (entriesOf s.oearned owner) (entriesOf s.earned p)).map
+    (fun diff => setEntries (eraseAll s.oearned owner) owner diff)
 
 /-- keeper `WithdrawEarnedFees` for one provider -/
 def withdrawProvider (s : State) (owner p : Addr) : R :=
@@ -943,15 +946,15 @@ def skipBatch (s : State) (id : CtxId) (rc : Ctx) : State :=
   addExp (setCtx s id (startedCtx rc 0)) id (s.height + rc.timeout)
 
 /-- `OnRequestContextPaused` -/
-def onPaused (s : State) (id : CtxId) (rc : Ctx) : State :=
+def onPaused (s : State) (id : CtxId) (rc : Ctx) (cause : String) : State :=
   if rc.moduleName ≠ "" then
     { setCtx s id { rc with batchState := .completed, state := .paused } with
-      cb := s.cb ++ [.state id "insufficient balances"] }
+      cb := s.cb ++ [.state id cause] }
   else setCtx s id { rc with batchState := .completed, state := .paused }
 
 /-- `subUnlockedCoins`: the bank debits coin by coin (ascending denom) and stops at the first
-coin the account cannot pay; inside a transaction the partial debit is rolled back, in
-`EndBlocker` it is not (F-svc-4) -/
+coin the account cannot pay; the end blocker runs the deduction on a cache context, so a failed
+deduction leaves no partial debit -/
 def debitCoins (b : Bank) (a : Addr) : Coins → Bank × Bool
   | [] => (b, true)
   | (d, n) :: rest =>
@@ -963,19 +966,20 @@ def creditCoins (b : Bank) (a : Addr) : Coins → Bank
   | [] => b
   | (d, n) :: rest => creditCoins (Bank.setBal b a d (Bank.balOf b a d + n)) a rest
 
-/-- `DeductServiceFees`, then either `InitiateRequests` + expiration entry, or the automatic pause -/
+/-- `DeductServiceFees` (atomic: on a cache context), then either `InitiateRequests` + expiration entry, or
+the automatic pause -/
 def chargeAndStart (s : State) (id : CtxId) (rc : Ctx) (provs : List Addr) (total : Coins) : State :=
   if (debitCoins s.bank rc.consumer (sortCoins total)).2 then
     delNew (addExp (initiateRequests
       { s with bank := creditCoins (debitCoins s.bank rc.consumer (sortCoins total)).1 reqAcc (sortCoins total) } id provs)
       id (s.height + rc.timeout)) id s.height
-  else delNew (onPaused { s with bank := (debitCoins s.bank rc.consumer (sortCoins total)).1 } id rc) id s.height
+  else delNew (onPaused s id rc "insufficient balances") id s.height
 
 /-- the new-request-batch handler of `EndBlocker` for one queue entry -/
 def newBatch (s : State) (id : CtxId) : State :=
   if (getCtx s id).state = .running then
     match filterProviders s (getCtx s id) (getCtx s id).providers [] [] with
-    | none => s                                   -- early `return`: the queue entry is *not* deleted (F-svc-3)
+    | none => delNew (onPaused s id (getCtx s id) "no exchange rate") id s.height
     | some (provs, total) =>
       if 0 < provs.length ∧ (getCtx s id).respThreshold ≤ provs.length then chargeAndStart s id (getCtx s id) provs total
       else delNew (skipBatch s id (getCtx s id)) id s.height
